@@ -123,8 +123,23 @@ func init() {
 					path = "/" + path
 				}
 				nd := yaml.MustParse("apiVersion: v1\nkind: ConfigMap\nmetadata:\n  name: x\n")
-				nd.PipeE(yaml.SetAnnotation("config.kubernetes.io/path", path), yaml.SetAnnotation("config.kubernetes.io/index", "0"),
-					yaml.SetAnnotation("internal.config.kubernetes.io/path", path), yaml.SetAnnotation("internal.config.kubernetes.io/index", "0"))
+				switch r.Intn(4) {
+				case 0:
+					// NO path annotation: the writer derives the file from namespace and name — whatever THEY contain
+					odd := pickS(r, []string{"../../other", "../x", "..", "a/../../..", "/other", "ok"})
+					if r.Intn(2) == 0 {
+						nd = yaml.MustParse("apiVersion: v1\nkind: ConfigMap\nmetadata:\n  name: x\n  namespace: \"" + odd + "\"\n")
+					} else {
+						nd = yaml.MustParse("apiVersion: v1\nkind: ConfigMap\nmetadata:\n  name: \"" + odd + "\"\n")
+					}
+					path = "<derived from " + odd + ">"
+				case 1:
+					// only the legacy spelling of the annotation, beside an EMPTY current one
+					nd.PipeE(yaml.SetAnnotation("config.kubernetes.io/path", path), yaml.SetAnnotation("internal.config.kubernetes.io/path", ""))
+				default:
+					nd.PipeE(yaml.SetAnnotation("config.kubernetes.io/path", path), yaml.SetAnnotation("config.kubernetes.io/index", "0"),
+						yaml.SetAnnotation("internal.config.kubernetes.io/path", path), yaml.SetAnnotation("internal.config.kubernetes.io/index", "0"))
+				}
 				err := kio.LocalPackageWriter{PackagePath: "/pkg/dir", FileSystem: filesys.FileSystemOrOnDisk{FileSystem: fs}}.Write([]*yaml.RNode{nd})
 				in := map[string]interface{}{"mode": "pkg-write", "path": path}
 				o.note("pkg-write-"+map[bool]string{true: "ok", false: "rejected"}[err == nil], in)
